@@ -229,6 +229,70 @@ def run_other(job, ctx):
             exact('PhoneNumberModel', 'phonenumber', s, ctx, cls, ['{}', 'my number is {}', 'call  {}  now', 'tel:\t{}'], loose=True)
 
 
+PAIR_JOINS = ['ping {a} first, then {b} again', '{a} and {b}', 'hosts {a} , {b}', '{a} {b}']
+
+
+def run_pairs(job, ctx):
+    """two entities of one type in one query - the same expression twice, one a prefix / suffix of the other, the short IPv6 forms after a
+    long one: two entities, each on its own occurrence"""
+    r = ctx.rng('pairs')
+    n = 250 if ctx.tier == 'quick' else 5000
+
+    def two(model_name, type_name, a, b, cls, values=None):
+        m = seq_model(model_name)
+        where = {'model': model_name, 'culture': 'en-us', 'cls': cls}
+        for t in r.sample(PAIR_JOINS, 2):
+            q = t.format(a=a, b=b)
+            sa = len(t[:t.index('{a}')].format(a=a, b=b))
+            sb = len(t[:t.index('{b}')].format(a=a, b=b))
+            key = '%s|%s' % (model_name, q)
+            try:
+                res = m.parse(q)
+            except Exception as e:
+                ctx.observe(key=key, cell=cls)
+                ctx.fail('exception', where, key, {'model': model_name, 'query': q, 'cls': cls}, None, repr(e))
+                continue
+            ctx.event('boundary_calls')
+            ctx.observe(key=key, nontrivial=len(res) >= 2, cell=cls, sample={'query': q, 'observed': view(res)})
+            want = [[sa, sa + len(a) - 1], [sb, sb + len(b) - 1]]
+            got = sorted([e.start, e.end] for e in res if e is not None)
+            ok = got == want and all(e.type_name == type_name for e in res)
+            if ok and values:
+                by = {e.start: e for e in res}
+                ok = all(values[i](by[want[i][0]]) for i in (0, 1))
+            if not ok:
+                ctx.fail('pair-not-two-entities-on-their-own-occurrences', where, key, {'model': model_name, 'query': q, 'cls': cls, 'a': a, 'b': b}, {'spans': want}, view(res))
+
+    def ipval(addr):
+        return lambda e: ipaddress.ip_address(e.resolution['value']) == ipaddress.ip_address(addr)
+    for _ in range(n):
+        v4 = str(ipaddress.IPv4Address(r.getrandbits(32)))
+        v4b = str(ipaddress.IPv4Address(r.getrandbits(32)))
+        shorter = v4[:-1] if v4[-2] != '.' and len(v4.split('.')[-1]) > 1 else v4
+        hs = [r.getrandbits(16) for _ in range(8)]
+        i0 = r.randrange(1, 6)
+        for i in range(i0, i0 + 2):
+            hs[i] = 0
+        v6 = ipaddress.IPv6Address(':'.join('%x' % h for h in hs)).compressed
+        for a, b, cls in ((v4, v4, 'pair-ip-same'), (v4, v4b, 'pair-ip-random'), (v4, shorter, 'pair-ip-prefix'), (shorter, v4, 'pair-ip-prefix-first'),
+                          (v6, v6, 'pair-ipv6-same'), ('fe80::%x' % r.randrange(1, 0xffff), '::1', 'pair-ipv6-short-after-long'), (v6, '::', 'pair-ipv6-unspecified-after-long'),
+                          (v6, v4, 'pair-ip-mixed')):
+            two('IpAddressModel', 'ip', a, b, cls, [ipval(a), ipval(b)])
+        u = str(uuid.UUID(int=r.getrandbits(128)))
+        two('GUIDModel', 'guid', u, u, 'pair-guid-same')
+        tag = w(r, L, 2, 8)
+        two('HashtagModel', 'hashtag', '#' + tag, '#' + tag, 'pair-hashtag-same')
+        two('HashtagModel', 'hashtag', '#' + tag + 'x', '#' + tag, 'pair-hashtag-prefix')
+        two('MentionModel', 'mention', '@' + tag, '@' + tag, 'pair-mention-same')
+        mail = '%s@%s.com' % (w(r, L, 2, 6), w(r, L, 2, 6))
+        two('EmailModel', 'email', mail, mail, 'pair-email-same')
+        a3, b3, c4 = r.randrange(200, 1000), r.randrange(200, 1000), r.randrange(0, 10000)
+        ph = '%d-%d-%04d' % (a3, b3, c4)
+        two('PhoneNumberModel', 'phonenumber', ph, ph, 'pair-phone-same')
+        url = 'www.%s.com' % w(r, L, 3, 8)
+        two('URLModel', 'url', url, url, 'pair-url-same')
+
+
 def plan(tier, seed):
     jobs = []
     sh = 2 if tier == 'quick' else 6
@@ -238,11 +302,12 @@ def plan(tier, seed):
         jobs.append({'name': p, 'kind': 'ip', 'part': p})
     jobs.append({'name': 'guid', 'kind': 'guid'})
     jobs.append({'name': 'other', 'kind': 'other', 'weight': 3})
+    jobs.append({'name': 'pairs', 'kind': 'pairs', 'weight': 2})
     return jobs
 
 
 def run(job, ctx):
-    {'ip': run_ip, 'guid': run_guid, 'other': run_other}[job['kind']](job, ctx)
+    {'ip': run_ip, 'guid': run_guid, 'other': run_other, 'pairs': run_pairs}[job['kind']](job, ctx)
 
 
 def replay_case(fail, ctx):
